@@ -360,7 +360,7 @@ fn u08_3_chain_remove_rebuilds_map() {
 // exhausts CBMC - stays outside the block, so the list is handed over in application order, lowest priority first): every patch is
 // applied through apply_patch, none skipped; so Ok(bytes) carries the digest the LAST applied = winning (highest-priority) patch
 // declares and every step started from the digest its patch expects - or the read is an error
-// @harness unit=U08.4 props=C08 kind=bounded bound="<= 3 patches over one base; MD5 replaced by a one-byte digest, apply_patch by an instance of its proved contract" timeout=900 target="patch_chain.rs: read_patched_file patch application loop (E11 block)" oracle=patch_verify
+// @harness unit=U08.4 props=C08 kind=bounded bound="<= 3 patches over one base; MD5 replaced by a one-byte digest, apply_patch by an instance of its proved contract" timeout=900 target="patch_chain.rs: read_patched_file patch application loop (E11 block)" oracle=chain_patch
 #[kani::proof]
 #[kani::unwind(6)]
 #[kani::stub(alloc::fmt::format, stub_format)]
